@@ -268,9 +268,8 @@ def run_op(w, op, local):
     if name == 'reconfigure':
         key = op.get('key')
         kf = None if key is None else getattr(model, key + '_order')
-        if key == 'random':
-            with simrandom.installed({'mode': 'constant'}):
-                return layout.reconfigure(g, model=model, key=kf)
+        # the simulator-owned constant PRNG stream is installed once per run (see execute):
+        # installing it per call would be a process-global toggled by interleaved clients
         return layout.reconfigure(g, model=model, key=kf)
     if name == 'reify_edges':
         return transform.reify_edges(g, model)
@@ -351,6 +350,8 @@ def run_op(w, op, local):
         local['iters'].append(codec.iterdecode(iter([text + '\n', '\n', w.texts[y] + '\n', w.texts[z] + '\n'])))
         return len(local['iters'])
     if name == 'iter_next':
+        if local.get('tainted'):
+            return 'not-judged: an earlier operation on this client\'s private iterators was interrupted'
         if not local['iters']:
             return 'no-iterator'
         it = local['iters'][op['a'] % len(local['iters'])]
@@ -406,7 +407,8 @@ def execute(trace):
         lg.setLevel(logging.DEBUG)
         res.hit('probe.debug_logging')
     try:
-        _execute(trace, cfg, clients, res)
+        with simrandom.installed({'mode': 'constant'}):
+            _execute(trace, cfg, clients, res)
     finally:
         if handler is not None:
             lg.removeHandler(handler)
@@ -514,7 +516,10 @@ def _execute(trace, cfg, clients, res):
         """After a cancelled call: shared arguments intact, and the same call re-issued gives the reference result."""
         ok = check_shared(f'after {kind} of {op["op"]} (id {op["id"]}) {where}')
         if op['op'] in ('iter_next', 'iter_open'):
-            return            # a half-advanced private generator is a half-finished in-place operation
+            # a half-advanced private generator is a half-finished in-place operation: neither
+            # re-issued nor compared from here on
+            local['tainted'] = True
+            return
         S.begin_op(S.ctx[ci], f'{op["id"]}r')
         again = result_canon(lambda: run_op(world, op, local))
         res.hit('probe.cancel_reissued')
@@ -551,7 +556,7 @@ def _execute(trace, cfg, clients, res):
         for op in ops:
             got = results.get(op['id'])
             res.event(ci, op['id'], op['op'], digest.sha(got))
-            if got in (['CANCELLED'], ['RECURSION']):
+            if got in (['CANCELLED'], ['RECURSION']) or (isinstance(got, str) and got.startswith('not-judged')):
                 continue
             if got != reference[op['id']]:
                 res.violate('refinement', 'result-differs-from-sequential-execution', client=ci, op=op,
@@ -617,8 +622,9 @@ def _child_run(args):
     world, ops = args
     out = {}
     local = {'iters': []}
-    for op in ops:
-        out[op['id']] = result_canon(lambda: run_op(world, op, local))
+    with simrandom.installed({'mode': 'constant'}):     # a spawned interpreter starts with the real PRNG
+        for op in ops:
+            out[op['id']] = result_canon(lambda: run_op(world, op, local))
     return out
 
 
